@@ -373,3 +373,28 @@ CHECKS["C03"] = dict(
     level_text="The stated product of positions, option deviations and go-command histories is executed completely on the real engine stack; every reported line is judged by an independent rules oracle.",
     level_note="Trusted: the oracle; configurations outside the lattice (depth > 5, Hash > 16 MB, Threads > 2) are not covered.",
 )
+
+# ------------------------------------------------------------------------------------------ C14
+def c14_parts(tier, seed):
+    T = "c14_clearhash"
+    q = tier == "quick"
+    return [
+        P("histories", T, "fast", ["--part", "histories", "--depth", 11 if q else 12], require=["nontrivial", "fresh_runs"], deadline_frac=0.9),
+    ] + ([] if q else [P("histories-asan", T, "seq", ["--part", "histories", "--depth", 7, "--tier", "quick"], require=["nontrivial"], deadline_frac=0.5)])
+
+CHECKS["C14"] = dict(
+    parts=c14_parts,
+    rule="states = histories executed (one fresh engine process each), distinct by construction; transitions = transcript lines compared; non-trivial = the history leaves residual "
+         "state before Clear Hash (anything but exactly one prior trivial search)",
+    alphabet="g in 0..16 trivial searches (every value of the 4-bit generation counter) x probes {go depth d on two middlegame positions, go nodes 20000 on an endgame}; "
+             "13 operations {depth/nodes/movetime searches on unrelated positions, go infinite on KQK until the on-demand table is resident + stop, ucinewgame, Hash 2->16, MultiPV 3->1, "
+             "Strength 500->1000, UCI_AnalyseMode on->off, Contempt 50->0, Threads 2->1, ponder+stop}: every single operation x generation counts around the wrap, every ordered pair "
+             "(thorough: triples over a reduced alphabet); same command twice",
+    oracle="normalised probe transcript (every info line's depth/score/bound/nodes/pv/hashfull, final node count, bestmove, ponder; time, nps and the once-per-second periodic statistics "
+           "lines removed) equals that of the same probe in a freshly started engine; two fresh engines agree with each other (determinism)",
+    bound=dict(quick="probe depth 11/10, 51 + 156 + 507 + 3 histories", thorough="probe depth 12/11, triples over a reduced alphabet, more generation counts"),
+    assumptions=["Threads 1 for the probe; time-limited probes are outside the property"],
+    technique="bounded-exhaustive enumeration of session histories on the real UCI stack (fresh process per history), differential oracle against a fresh engine",
+    level_text="All histories of the stated alphabet up to length 2 (3) and every generation-counter value are executed on the real engine and compared line by line with a fresh start.",
+    level_note="Trusted: the session runner; histories longer than 3 operations + 16 trivial searches are not covered.",
+)
